@@ -24,6 +24,12 @@ CHECKS = {
  "C18": ("exploration", "exhaustive enumeration of an invalid-argument menu (one argument at a time, each recipient pattern) on the real mpc, counting channel operations",
          "Every value of every argument's invalid menu (party indices at and far beyond the boundary, output sets empty / out of range / repeated / unsorted, wrong input lengths, circuits failing validation, inconsistent counters, misplaced or surplus Input instructions) is passed to one party at a time and to all parties; the call must return Err with zero channel operations (or, for repeated output indices, behave as a set), and never panic.",
          "and_ops values that would make the engine allocate terabytes are not tried in-process", "4.C18", "E1+E3"),
+ "C19": ("model_checking", "explicit-state breadth-first search over operation sequences on the real FileOrMemBuf (file and memory variant) against a reference model, states deduplicated on full hidden state",
+         "Breadth-first search to depth 12 over appends (6 sizes) and complete/abandoned item-wise and chunk-wise reads, executed on a real file-backed buffer, a real in-memory buffer and a Vec<Vec<u64>> model; items/order always equal, chunk boundaries equal when appends conform; no directory entry at any time; every new state re-checked by an append-canary differential; plus all unmerged sequences of fixed length and mpc runs under every tmp_dir mask with one tape (equal outputs and traffic).",
+         "element type u64 (the engine's types differ only in serde encoding); hidden state exposed by a guarded debug accessor; tmp dirs on tmpfs", "4.C19", "E3+E1"),
+ "C20": ("exploration", "exhaustive enumeration of shapes, basis inputs, request lengths and short call sequences against schoolbook references and the aes crate",
+         "Transpose: every accepted shape 128 x c (c=16..4096 step 8, also 256/384 rows) with single-bit basis inputs, index-bit matrices, dense inputs and all buffer alignments, AVX2 and portable vs a bit-by-bit reference; clmul: all 128x128 basis pairs plus structured/dense operands, PCLMUL and scalar vs shift-and-xor; fixed-key AES hashes vs the aes crate; AesRng: every length 0..1100 from a fresh generator vs the AES-CTR keystream and every short call sequence (fresh-substring oracle).",
+         "AES over 2^128 blocks is not enumerable (structured + tape-derived blocks only); non-AVX2/PCLMUL CPUs are covered by calling the portable code directly", "4.C20", "E3"),
 }
 
 NOT_YET = "check not built yet (construction in progress, see DESIGN.md section 8)"
